@@ -40,7 +40,9 @@ import (
 	"verifharness/hc"
 )
 
-var fmtName = []string{"", el.JSONFormat, "x", "y", "z"}
+// 0 unset, 1 the JSON format, 2 3 two more, 4 one no event carries; 5.. look-alike twins of "json" (case, surrounding white space, a proper
+// prefix, "json" as a proper prefix, a trailing NUL), a 300-byte name, a non-ASCII twin
+var fmtName = []string{"", el.JSONFormat, "x", "y", "z", "JSON", "json ", " json", "jso", "jsonx", "json\x00", strings.Repeat("f", 300), "ĵson"}
 
 // ---------- cases ----------
 type Entry struct {
@@ -57,14 +59,17 @@ type Case struct {
 	Kind string `json:"kind"` // w c f h
 	Gen  string `json:"gen,omitempty"`
 	// w, f
-	Fmt     int     `json:"fmt"`
-	Table   []Entry `json:"table,omitempty"`
-	TabNil  bool    `json:"table_nil,omitempty"` // Event.Formatted == nil
-	WNil    bool    `json:"writer_nil,omitempty"`
-	ENil    bool    `json:"event_nil,omitempty"`
-	Beh     string  `json:"beh,omitempty"`      // ok fail0 failhalf failfull shorthalf short0 over
-	CtxKind string  `json:"ctx_kind,omitempty"` // w c f: the context handed to Process: "" background, live, cancelled, past-deadline, custom (Err() != nil)
-	Err     string  `json:"err,omitempty"`      // which error VALUE a failing writer returns (see writerErrors); "" = a private error
+	Fmt     int      `json:"fmt"`
+	Table   []Entry  `json:"table,omitempty"`
+	TabNil  bool     `json:"table_nil,omitempty"` // Event.Formatted == nil
+	WNil    bool     `json:"writer_nil,omitempty"`
+	ENil    bool     `json:"event_nil,omitempty"`
+	Beh     string   `json:"beh,omitempty"`         // ok fail0 failhalf failfull shorthalf short0 over
+	WFunc   bool     `json:"writer_func,omitempty"` // the accepting writer is a func value (value receiver) instead of a pointer
+	Seq     []string `json:"seq,omitempty"`         // w: this call is the last of a sequence on ONE sink; behaviours of the earlier calls
+	Stagger int      `json:"stagger_ms,omitempty"`  // g: caller i enters Process i*stagger ms after the barrier (overlapping, not simultaneous)
+	CtxKind string   `json:"ctx_kind,omitempty"`    // w c f: the context handed to Process: "" background, live, cancelled, past-deadline, custom (Err() != nil)
+	Err     string   `json:"err,omitempty"`         // which error VALUE a failing writer returns (see writerErrors); "" = a private error
 	// c
 	Calls []Call `json:"calls,omitempty"`
 	// f: 0 /dev/null 1 stdout 2 stderr 3 file 4 failing file 5 no directory 6/7 stdout/stderr on /dev/full 8/9 stdout/stderr closed
@@ -132,14 +137,21 @@ type wcall struct {
 	n   int
 }
 type hwriter struct {
-	beh   string
-	err   error
-	calls []wcall
+	beh     string
+	err     error
+	calls   []wcall
+	seq     []string // behaviour of the k-th Write when the sink is reused over several calls
+	onWrite func()
 }
+
+// the same accepting writer as a function value (a value receiver, no pointer identity)
+type writerFunc func([]byte) (int, error)
+
+func (f writerFunc) Write(b []byte) (int, error) { return f(b) }
 
 // the contexts a caller may hand to Process; writer.Sink and FileSink have no business looking at it (C13 does not make writing
 // depend on the caller's context: nil => exactly the stored bytes were written)
-var ctxKinds = []string{"", "live", "cancelled", "past-deadline", "custom"}
+var ctxKinds = []string{"", "live", "cancelled", "past-deadline", "custom", "cause", "cancel-in-write"}
 
 func makeCtx(kind string) (context.Context, context.CancelFunc) {
 	switch kind {
@@ -155,13 +167,31 @@ func makeCtx(kind string) (context.Context, context.CancelFunc) {
 		done := make(chan struct{})
 		close(done)
 		return &customCtx{Context: context.Background(), done: done, err: &privateErr{"ctx gone"}}, func() {}
+	case "cause":
+		ctx, cancel := context.WithCancelCause(context.Background())
+		cancel(io.EOF)
+		return context.WithCancel(ctx) // a child of a context cancelled with a custom cause
+	case "cancel-in-write":
+		return context.WithCancel(context.Background()) // the harness writer cancels it when Write is entered
 	}
 	return context.Background(), func() {}
 }
 
 type privateErr struct{ s string }
 
-func (e *privateErr) Error() string { return e.s }
+func (e *privateErr) Error() string {
+	if e == nil {
+		return "typed nil error"
+	}
+	return e.s
+}
+
+type timeoutErr struct{}
+
+func (timeoutErr) Error() string   { return "harness: timed out" }
+func (timeoutErr) Timeout() bool   { return true }
+func (timeoutErr) Temporary() bool { return true }
+func (timeoutErr) Is(t error) bool { return t == io.EOF || t == context.DeadlineExceeded }
 
 // the error VALUES a failing writer / a done context hands back: the sentinel errors code could plausibly special-case, each also
 // wrapped with %w, and a private error.  Whatever the value, C13 wants a non-nil error from the sink.
@@ -171,7 +201,8 @@ var writerErrors = func() map[string]error {
 		"canceled": context.Canceled, "deadline": context.DeadlineExceeded, "enospc": syscall.ENOSPC, "eagain": syscall.EAGAIN, "eintr": syscall.EINTR,
 		"epipe": syscall.EPIPE, "osdeadline": os.ErrDeadlineExceeded, "nomoreprogress": io.ErrNoProgress,
 	}
-	m := map[string]error{"private": &privateErr{"write failed"}}
+	m := map[string]error{"private": &privateErr{"write failed"}, "custom-timeout-temporary-is-eof": timeoutErr{}, "typednil": (*privateErr)(nil),
+		"join:eof+private": errors.Join(io.EOF, &privateErr{"second"}), "join:one": errors.Join(io.ErrShortWrite)}
 	for k, v := range base {
 		m[k] = v
 		m["wrap:"+k] = fmt.Errorf("harness writer: %w", v)
@@ -192,7 +223,14 @@ func errNames() []string {
 func (w *hwriter) Write(b []byte) (int, error) {
 	var n int
 	var err error
-	switch w.beh {
+	if w.onWrite != nil {
+		w.onWrite()
+	}
+	beh := w.beh
+	if len(w.seq) > 0 {
+		beh, w.seq = w.seq[0], w.seq[1:]
+	}
+	switch beh {
 	case "ok":
 		n = len(b)
 	case "fail0":
@@ -232,8 +270,25 @@ func execW(c Case) (res int, calls []wcall) {
 	s := &writer.Sink{Format: fmtName[c.Fmt]}
 	if !c.WNil {
 		s.Writer = hw
+		if c.WFunc {
+			s.Writer = writerFunc(hw.Write)
+		}
 	}
-	var e *el.Event
+	for i, b := range c.Seq {
+		// earlier calls on the same sink (values of their own); only the last call is the case compared with the model
+		pre := c
+		pre.Beh, pre.Seq, pre.Table = b, nil, []Entry{{1, []int{200 + i, 201 + i, 202 + i, 203 + i}}, {2, []int{210 + i, 211 + i}}}
+		hw.beh = b
+		processOn(s, pre, hw)
+	}
+	hw.beh, hw.calls = c.Beh, nil
+	res, _ = processOn(s, c, hw)
+	return res, hw.calls
+}
+
+// processOn makes one Process call on a writer.Sink / FileSink with the case's event and context, and re-reads the event afterwards:
+// the sink must leave the stored bytes and the event alone
+func processOn(s el.Node, c Case, hw *hwriter) (res int, e *el.Event) {
 	if !c.ENil {
 		e = &el.Event{Type: "t", Formatted: formatted(c)}
 	}
@@ -248,9 +303,25 @@ func execW(c Case) (res int, calls []wcall) {
 		}()
 		ctx, cancel := makeCtx(c.CtxKind)
 		defer cancel()
+		if hw != nil && c.CtxKind == "cancel-in-write" {
+			hw.onWrite = cancel
+		}
 		out, err = s.Process(ctx, e)
 	}()
-	return classify(out, err, panicked), hw.calls
+	res = classify(out, err, panicked)
+	if e != nil {
+		want := formatted(c)
+		same := e.Type == "t" && len(e.Formatted) == len(want) && (e.Formatted == nil) == (want == nil)
+		for k, v := range want {
+			if got, ok := e.Formatted[k]; !ok || string(got) != string(v) || (got == nil) != (v == nil) {
+				same = false
+			}
+		}
+		if !same {
+			res = 3 // the event or its stored bytes were altered
+		}
+	}
+	return res, e
 }
 
 func behLit(b string) string {
@@ -480,20 +551,7 @@ func execF(c Case, scratch string) (res int, got []int, skipped bool) {
 		fs.Path = filepath.Join(dir, "notadir", "logs")
 		readBack = func() []byte { return nil }
 	}
-	e := &el.Event{Type: "t", Formatted: formatted(c)}
-	var out *el.Event
-	panicked := false
-	func() {
-		defer func() {
-			if r := recover(); r != nil {
-				panicked = true
-			}
-		}()
-		ctx, cancel := makeCtx(c.CtxKind)
-		defer cancel()
-		out, err = fs.Process(ctx, e)
-	}()
-	res = classify(out, err, panicked)
+	res, _ = processOn(fs, c, nil)
 	return res, intsOf(readBack()), false
 }
 func litF(c Case, res int, got []int) string {
@@ -944,6 +1002,9 @@ func execGRound(c Case) gobs {
 			for atomic.LoadInt32(&arrived) < int32(c.N) {
 				runtime.Gosched()
 			}
+			if c.Stagger > 0 {
+				time.Sleep(time.Duration(i*c.Stagger) * time.Millisecond)
+			}
 			t0 := time.Now()
 			out, perr := cs.Process(context.Background(), evs[i])
 			lat := time.Since(t0)
@@ -960,7 +1021,7 @@ func execGRound(c Case) gobs {
 	ready.Wait()
 	o := gobs{Arms: []int{}, DeliveredOK: true}
 	okCaller := map[int]bool{}
-	watchdog := time.After(50*time.Duration(c.Timeout+20)*time.Millisecond + time.Second)
+	watchdog := time.After(50*time.Duration(c.Timeout+20)*time.Millisecond + time.Second + time.Duration(c.N*c.Stagger)*time.Millisecond)
 collect:
 	for got := 0; got < c.N; got++ {
 		select {
@@ -1020,6 +1081,13 @@ func genG(e *emitter, rounds int) {
 	for _, free := range []int{0, 1, 2, 3} {
 		for _, n := range []int{4, 8} {
 			e.run(Case{Kind: "g", Gen: "scenarios", Free: free, N: n, Timeout: 5, Rounds: rounds})
+		}
+	}
+	// overlapping (not simultaneous) callers on one shared sink: caller i enters i*stagger ms after the first; every caller's timeout runs
+	// from its own entry (an early timeout error = a timer shared between calls)
+	for _, free := range []int{0, 1} {
+		for _, tmo := range []int{1, 20} {
+			e.run(Case{Kind: "g", Gen: "staggered", Free: free, N: 4, Timeout: tmo, Stagger: 4, Rounds: 3})
 		}
 	}
 }
@@ -1181,12 +1249,62 @@ func genW(e *emitter) {
 			}
 		}
 	}
+	// look-alike twins of the format name: each twin carries its own bytes; exactly the configured one is written, and a table that
+	// carries only the twins does not satisfy a sink configured for the original
+	var twins []Entry
+	for f := 1; f < len(fmtName); f++ {
+		if f == 4 {
+			continue
+		}
+		twins = append(twins, Entry{f, []int{100 + f, 50 + f, 10}})
+	}
+	for fm := 0; fm < len(fmtName); fm++ {
+		e.run(Case{Kind: "w", Gen: "format-twins", Fmt: fm, Table: twins, Beh: "ok"})
+		var without []Entry
+		for _, t := range twins {
+			if t.F != fm && !(fm == 0 && t.F == 1) {
+				without = append(without, t)
+			}
+		}
+		e.run(Case{Kind: "w", Gen: "format-twins", Fmt: fm, Table: without, Beh: "ok"})
+		e.run(Case{Kind: "f", Gen: "format-twins", FKind: 3, Fmt: fm, Table: twins})
+		e.run(Case{Kind: "f", Gen: "format-twins", FKind: 3, Fmt: fm, Table: without})
+	}
+	// value sizes around 64 / 128 and 1000+, and two values sharing a 64-byte prefix
+	mk := func(n, salt int) []int {
+		v := make([]int, n)
+		for i := range v {
+			v[i] = 33 + (i*7)%90
+		}
+		if n > 0 {
+			v[n-1] = salt
+		}
+		return v
+	}
+	for _, n := range []int{63, 64, 65, 127, 128, 129, 1000} {
+		for _, b := range []string{"ok", "shorthalf", "failhalf", "failfull"} {
+			if n == 1000 && b != "ok" && b != "failhalf" {
+				continue
+			}
+			e.run(Case{Kind: "w", Gen: "sizes", Fmt: 0, Table: []Entry{{1, mk(n, 10)}, {2, mk(n, 11)}}, Beh: b, WFunc: b == "ok" && n%2 == 1})
+			e.run(Case{Kind: "w", Gen: "sizes", Fmt: 2, Table: []Entry{{1, mk(n, 10)}, {2, mk(n, 11)}}, Beh: b})
+		}
+	}
+	// one sink used again after a call whose Write took a prefix and failed / was short / panicked / failed after taking everything:
+	// the later call writes exactly its own value (a sink must not carry anything over)
+	for _, seq := range [][]string{{"failhalf"}, {"shorthalf"}, {"fail0", "ok"}, {"failfull"}, {"over"}, {"failhalf", "failhalf", "ok"}} {
+		for _, b := range []string{"ok", "failhalf"} {
+			for _, name := range []string{"", "eof", "wrap:eagain"} {
+				e.run(Case{Kind: "w", Gen: "sequence", Fmt: 0, Table: []Entry{{1, []int{11, 12, 13, 10}}, {2, []int{21}}}, Beh: b, Seq: seq, Err: name})
+			}
+		}
+	}
 	// a long value (one Write call whatever the size)
 	long := make([]int, 5000)
 	for i := range long {
 		long[i] = 32 + i%90
 	}
-	for _, b := range behs {
+	for _, b := range []string{"ok", "failhalf", "shorthalf"} {
 		e.run(Case{Kind: "w", Gen: "special", Fmt: 0, Table: []Entry{{1, long}}, Beh: b})
 	}
 }
@@ -1282,6 +1400,27 @@ func genH(e *emitter, repeat int) {
 					cases = append(cases, Case{Kind: "h", Gen: "scenarios", Timeout: to, Chan: c.k, ChanAt: c.at, Ctx: x.k, CtxAt: x.at, Slack: 1000})
 				}
 			}
+		}
+	}
+	// a tiny timeout (1 ms): the timeout arm still waits for it; a ready channel is still taken when it is ready first by a margin
+	for _, k := range []string{"full", "nobody", "drained", "arrives"} {
+		at := -1
+		if k == "drained" || k == "arrives" {
+			at = long
+		}
+		for _, x := range []cx{{"none", -1}, {"live", -1}, {"cancel", long}} {
+			cases = append(cases, Case{Kind: "h", Gen: "tiny-timeout", Timeout: 1, Chan: k, ChanAt: at, Ctx: x.k, CtxAt: x.at, Slack: 1000})
+		}
+	}
+	// the constructor refuses what Process could not honour: no channel, a timeout of 0 or less
+	if _, err := channel.NewChannelSink(nil, time.Second); err == nil {
+		fmt.Fprintln(os.Stderr, "sinksh: NewChannelSink accepted a nil channel")
+		os.Exit(1)
+	}
+	for _, d := range []time.Duration{0, -time.Second} {
+		if _, err := channel.NewChannelSink(make(chan *el.Event, 1), d); err == nil {
+			fmt.Fprintf(os.Stderr, "sinksh: NewChannelSink accepted the timeout %v\n", d)
+			os.Exit(1)
 		}
 	}
 	// a few at a time: each scenario sleeps for up to ~30 ms
